@@ -23,6 +23,8 @@ type c04Cfg struct {
 type c04Input struct {
 	Cfg    c04Cfg `json:"cfg"`
 	Agreed []JCR  `json:"agreed"`
+	// the report encoder fails on its EncFailAt-th call inside Reports (0 = never)
+	EncFailAt int `json:"encFailAt,omitempty"`
 }
 type c04Impl struct {
 	Reports [][]JCR `json:"reports"`           // the returned reports, decoded from their bytes
@@ -114,6 +116,14 @@ func c04Gen(r *Rng) c04Input {
 		}
 		in.Agreed = append(in.Agreed, toJCR(res))
 	}
+	if r.Chance(10) {
+		// the report encoder fails on one of its calls: Reports must stop there and say so (first, a middle, the last
+		// call, or a call that never happens)
+		in.EncFailAt = r.Range(1, 5)
+		if r.Bool() {
+			in.EncFailAt = r.Range(1, len(in.Agreed)/2+2)
+		}
+	}
 	return in
 }
 
@@ -157,6 +167,9 @@ func c04Run(t *testing.T, in c04Input) c04Impl {
 		var cancel context.CancelFunc
 		rctx, cancel = context.WithDeadline(context.Background(), time.Now().Add(-time.Second))
 		defer cancel()
+	}
+	if in.EncFailAt > 0 {
+		node.Enc.FailAt(in.EncFailAt)
 	}
 	reports, err := node.Plugin.Reports(rctx, 7, raw)
 	calls := node.Enc.Take()
